@@ -124,6 +124,20 @@ func (fx *Fx) collectWrites(nodes []ast.Node, st *State) *writeSet {
 						ws.pkgs[x.Args[0]] = fx.pkg
 					}
 				}
+				// copy(dst, ...) and clear(dst) write their first operand (through a slice expression too)
+				if id, ok := ast.Unparen(x.Fun).(*ast.Ident); ok && (id.Name == "copy" || id.Name == "clear") && len(x.Args) >= 1 {
+					if _, isB := fx.pkg.info.Uses[id].(*types.Builtin); isB {
+						d := ast.Unparen(x.Args[0])
+						for {
+							sl, ok := d.(*ast.SliceExpr)
+							if !ok {
+								break
+							}
+							d = ast.Unparen(sl.X)
+						}
+						addLHS(d)
+					}
+				}
 				if se, ok := ast.Unparen(x.Fun).(*ast.SelectorExpr); ok {
 					if sel, ok := fx.pkg.info.Selections[se]; ok && sel.Kind() == types.MethodVal {
 						if fn, ok := sel.Obj().(*types.Func); ok && strings.HasPrefix(fn.FullName(), "(*bufio.Scanner).") {
